@@ -47,6 +47,7 @@ def correspondence(ctx):
     n = 300 if ctx.tier == "quick" else 4000
     recs += [chargen.gen_recipe(rng) for _ in range(n)]
     ctx.gen_results = chargen.run_chargen_family(ctx, 0, recipes=recs)
+    ctx.nontrivial.clear()      # this property has its own rule (below); the family's generic rule is not added on top
     for meta, a, b in ctx.gen_results:
         if a and (a.startswith("err") or meta["features"].get("candidate_rejections", 0) > 0):
             ctx.nontrivial.add((meta["_recipe"].tokens(), tuple(meta["budget"]), meta["features"]["kind"]))
